@@ -48,6 +48,9 @@ def configs(tier):
                     if tier == "quick" and nvec != 3 and (ua, ub) not in (("m", "cm"), ("dimensionless", "dimensionless")):
                         continue
                     out.append(dict(kind="lift", op=op, nvec=nvec, rhs=rhs, ua=ua, ub=ub, shape=shape, dt=dt))
+        for rhs in ("float", "int", "Array"):
+            out.append(dict(kind="lift", op=op, nvec=2, rhs=rhs, ua="dimensionless", ub="dimensionless", shape=[2], dt="int64"))
+            out.append(dict(kind="lift", op=op, nvec=3, rhs=rhs, ua="dimensionless", ub="dimensionless", shape=[1], dt="float32"))
         out.append(dict(kind="nvec-mismatch", op=op, na=3, nb=2))
         out.append(dict(kind="nvec-mismatch", op=op, na=1, nb=3))
         out.append(dict(kind="nvec-mismatch", op=op, na=2, nb=3))
@@ -56,6 +59,7 @@ def configs(tier):
             for lk in ("int", "float"):       # an ndarray on the left is not among the claimed operand kinds
                 for ua in ("m", "dimensionless"):
                     out.append(dict(kind="refl", op=op, nvec=nvec, lhs=lk, ua=ua, shape=[2], dt="float64"))
+        out.append(dict(kind="refl", op=op, nvec=2, lhs="float", ua="dimensionless", shape=[2], dt="int64"))
     for op in ("neg", "pow2", "pow-1", "pow0.5", "invert", "and", "or", "xor"):
         for nvec in (1, 2, 3):
             out.append(dict(kind="unary", op=op, nvec=nvec, dt="float64",
